@@ -348,6 +348,9 @@ class TransactionRecord:
         self.description = transaction.description
         extension = transaction.extension
         self.extension = extension
+        # IStorageTransactionInformation: needed when this record is passed
+        # to another storage's tpc_begin (copyTransactionsFrom).
+        self.extension_bytes = transaction.extension_bytes
         self.data = data
 
     _extension = property(lambda self: self.extension,
